@@ -274,6 +274,28 @@ def nested_harness(u, n, maxsz, b=None, wide=False):
     return hgen.harness([u], body)
 
 
+def nested_many_harness(u):
+    """nested group with a uint8 numInGroup holding ANY number of entries 0..255 (beyond the range of its signed difference_type): minimal entries (wire blockLength 0, empty <data>)"""
+    body = r"""
+  enum { HDR = 8, N = HDR + 2 + 255 + 2 };
+  unsigned char buf[N]; for (unsigned i = 0; i < N; i++) buf[i] = 0;      /* root blockLength 0; group header at 8: {blockLength u8 = 0, numInGroup u8 = cnt}; every entry = one zero length byte */
+  IN(u8, cnt); buf[HDR + 1] = cnt;
+  SELECT(which);
+  if (which == 0) {
+    u64 s = 999, sb = 0; CALL(s = nsize_uint8(buf, N)); CALL(sb = nsize_bytes_uint8(buf, N));
+    VASSERT(!verif_aborted, "no handler"); VASSERT(s == cnt && sb == 2 + (u64)cnt, "size() and size_bytes() of a nested group for EVERY entry count of a uint8 numInGroup");
+  } else if (which == 1) {
+    i64 ad[2] = {-1, -1}; u64 sz[2] = {0, 0}; u32 k = 0, fl = 9; CALL(k = nwalk_uint8(buf, N, ad, sz, 2, &fl));
+    VASSERT(!verif_aborted, "no handler"); VASSERT(k == cnt && fl == 0, "forward iteration visits exactly size() entries and ends at end() for every entry count");
+    if (cnt >= 2) VASSERT(ad[0] == HDR + 2 && ad[1] == HDR + 3 && sz[0] == 1, "entry i starts where entry i-1 ends");
+  } else if (which == 2) {
+    i64 ad[2] = {-1, -1}, cend = -1; u32 k = 0; CALL(k = ncwalk_uint8(buf, N, ad, 2, &cend));
+    VASSERT(!verif_aborted, "no handler"); VASSERT(k == cnt && cend == (i64)(HDR + 2 + (u64)cnt), "cursor walk over every entry count: size() entries, cursor ends at the end of the group");
+  } else VASSUME(0);
+"""
+    return hgen.harness([u], body)
+
+
 WIDE_QUICK = {("uint8", "uint8"), ("uint16", "uint16"), ("uint32", "uint32"), ("uint64", "uint64"), ("uint8", "uint32"), ("uint16", "uint64"), ("uint64", "uint8")}   # quick tier: every numInGroup type, every blockLength type
 
 
@@ -322,6 +344,11 @@ def build(ctx):
             if cpairs is not pairs: mixed = []
             npairs = [(n_, n_) for n_ in U] + mixed
             un = ctx.lower("c12n", cpp([], [n_ if n_ == b_ else "%s_%s" % (n_, b_) for (n_, b_) in npairs]), std=std, mode=mode, incs=[inc])
+            for arm in range(2):     # the cursor walk (arm 2 of the harness) over 255 entries exhausts the 12 GB memory cap: left out, stated
+                hs.append(P.Harness("nested_uint8_many_arm%d_%s_cxx%s" % (arm, mode, std), nested_many_harness(un), [un], unwind=260, backends=["minisat", "kissat"], cap=ctx.q(600, 1200),
+                                    defines=["VERIF_WHICH=%d" % arm], meta={"big_unwind": 300},
+                                    desc="nested group with uint8 numInGroup: arm %d of {0 size/size_bytes, 1 forward iteration} for EVERY entry count 0..255 (minimal entries)" % arm,
+                                    bounds={"numInGroup": "0..255 (symbolic)", "entries": "wire blockLength 0, empty <data> (1 byte each)", "std": "c++" + std, "build": mode}))
             for (n, b) in npairs:
                 for arm in range(5):
                     hs.append(P.Harness("nested_%s_%s_arm%d_%s_cxx%s" % (n, b, arm, mode, std), nested_harness(un, n, maxsz, b), [un], unwind=maxsz + 3, backends=["minisat", "z3"], cap=ctx.q(600, 1200),
